@@ -3,6 +3,12 @@
 (property, what it needs to manifest, what was run)."""
 import glob, json, os
 ROOT = os.path.dirname(os.path.dirname(os.path.abspath(__file__)))
+NOTES = {
+    "C20_a": "first evaluation: NOT detected (every string_view operand lived in its own buffer); the C20 driver/generator was strengthened with aliasing SVA cases (two slices of one buffer, commit 5692c02) - now caught with a concrete input",
+    "C16_b": "first evaluation: only 'no-failing-input-found' (garbage ids are non-zero, the SPEC accepted them); SPEC strengthened: installed ids must be the padded hex value of the header's id fields (commit 29082b0) - now a concrete VIOLATION (extract:overlong_id_installed)",
+    "C01_b": "first evaluation: C02 concrete, C01 only 'no-failing-input-found'; the C01 history clause drop:within_flush_budget was added - now concrete for C01 too",
+    "C01_a": "the change is in CircularBuffer::Add: caught by C11 (ring under the shim); C01 runs use the queue as an atomic FIFO (one scheduling point per queue call) by design and cannot see it",
+}
 rows = []
 for d in sorted(glob.glob(os.path.join(ROOT, "seeded", "C*_*"))):
     sid = os.path.basename(d)
@@ -44,4 +50,7 @@ with open(os.path.join(ROOT, "seeded", "RESULTS.md"), "w") as f:
     f.write("| id | property | change | needs to manifest | files | confirmed | checks |\n|---|---|---|---|---|---|---|\n")
     for r in rows:
         f.write("| " + " | ".join(x.replace("|", "/") for x in r) + " |\n")
+    f.write("\n## Notes (checks strengthened after a miss)\n\n")
+    for k in sorted(NOTES):
+        f.write("* **%s** - %s\n" % (k, NOTES[k]))
 print("rows:", len(rows))
